@@ -1,23 +1,23 @@
 INIT GenInit
-NEXT GenNextSim
+NEXT GenNext
 CONSTANTS
   Program <- GenProgram
-  Role = "client"
+  Role = "server"
   WBuf = 256
-  Shapes <- S_nwMp_wmS
-  Ctl <- C_ping
-  Closer = TRUE
-  Rd <- R_pongD_pong
-  Fault <- F_none
+  Shapes <- S_nwL_wmS
+  Ctl <- C_ping_pong
+  Closer = FALSE
+  Rd <- R_none
+  Fault <- F_K1_t
   ControlTakesLock = TRUE
   FlushAtomic = TRUE
   LatchChecked = TRUE
   CloseLatches = TRUE
   TimeoutReleases = FALSE
   HandlerControlPath = TRUE
-  TimeoutFaultLatches = TRUE
+  TimeoutFaultLatches = FALSE
   Fifo = TRUE
-  OnlyBad = FALSE
-  Family = "simrclient"
+  OnlyBad = TRUE
+  Family = "atk_flt"
 INVARIANT Emit
 CHECK_DEADLOCK FALSE
